@@ -2,10 +2,11 @@
     stay inductive).  vp.py runs coqc on this file in .cache/ocaml/sort/. *)
 From Coq Require Extraction ExtrOcamlBasic.
 From DivanV Require Import Base.Res Base.ExtractPrelude Generated.Consts
-  Model.Natural Model.SortBy Model.ArgCmp.
+  Model.Natural Model.SortBy Model.ArgCmp Model.TreeCmp.
 Extraction Language OCaml.
 Set Extraction KeepSingleton.
 Extraction "model.ml" extraction_prelude
   natural_cmp natural_spec tokenize utf8_wf cut_offsets
   name_cmp_dec arg_cmp_dec sort_args_dec sort_sb_dec spec_arg_cmp_dec name_class dec_parse
-  with_tie_breakers.
+  with_tie_breakers
+  insert_entry insert_group dump_forest sort_forest_dec forest_sb_dec display_name cmp_by_attr spec_tree_cmp.
